@@ -64,6 +64,8 @@ type Ctx struct {
 	Prog    *ssa.Program
 	AllFns  map[*ssa.Function]bool
 	cg      *callgraph.Graph
+	cidx    *callIndex
+	cmd     *cmdModel
 	fnsByPk map[string][]*ssa.Function
 
 	Obls        []*Obligation
